@@ -49,10 +49,17 @@ def shards(tier):
     return out
 
 
+class Raised(Exception):
+    pass
+
+
 def _run(detname, sig):
     import pylife.stress.rainflow as RF
     det = getattr(RF, detname)(recorder=RF.FullRecorder())
-    det.process(np.array(sig, dtype=float))
+    try:
+        det.process(np.array(sig, dtype=float))
+    except Exception as e:  # noqa: BLE001
+        raise Raised(detname, type(e).__name__, str(e)[:200])
     rec = det.recorder
     return (np.asarray(rec.values_from, dtype=float).tolist(), np.asarray(rec.values_to, dtype=float).tolist(),
             [int(i) for i in rec.index_from], [int(i) for i in rec.index_to],
@@ -60,6 +67,13 @@ def _run(detname, sig):
 
 
 def check_signal(sig):
+    try:
+        return _check_signal(sig)
+    except Raised as r:
+        return [("C02/%s/raises-%s" % (r.args[0], r.args[1]), {"error": r.args[2]})], False, ("raised",) + r.args[:2]
+
+
+def _check_signal(sig):
     """Returns (list of (key, detail), nontrivial flag, outcome)."""
     import pylife.stress.rainflow as RF
     sig = [float(x) for x in sig]
